@@ -132,6 +132,7 @@ func frontStream(c *Ctx) {
 		impl := J{}
 		if err != nil {
 			impl["error"] = errClass(err)
+			impl["msg"] = err.Error()
 		} else {
 			set := [][]string{}
 			seen := map[string]bool{}
